@@ -179,6 +179,10 @@ distinct = set()
 samples = []
 rest_states = 0
 traces_ok = 0
+skipped = 0
+corr_breaks = []      # (what, replay): impl != model without a property violation on that case; reported only if no violating input is found
+def corr_break(what, replay):
+    corr_breaks.append((what, replay))
 if exe is None:
     ck.violation("correspondence harness does not compile against /repo", {"correspondence": "harness/C11/sync_harness.cpp", "log": log[-2000:]}, no_input=True)
 elif drv is None:
@@ -186,7 +190,7 @@ elif drv is None:
 else:
     env = dict(os.environ, ASAN_OPTIONS="detect_leaks=0")
     rc1, out1 = verif.sh([exe, casefile], timeout=3000, env=env)
-    impl = [l for l in out1.splitlines() if l.split(" ", 1)[0] in ("OK", "DEADLOCK", "BADCASE", "CRASH")]
+    impl = [l for l in out1.splitlines() if l.split(" ", 1)[0] in ("OK", "DEADLOCK", "BADCASE", "CRASH", "SKIPPED")]
     outfile = os.path.join(ck.scratch, "impl.txt")
     open(outfile, "w").write("\n".join(impl) + "\n")
     rc2, out2 = verif.sh([drv, casefile, outfile], timeout=3000)
@@ -210,6 +214,8 @@ else:
             nontrivial = (" WB:" in trace or ":WB:" in trace) or (kind == "bs" and len(blocks[0]) > 1)
             if nontrivial:
                 distinct.add(hash(kind + trace))
+            if a.startswith("SKIPPED"):
+                skipped += 1; continue
             if a.startswith("BADCASE") or b.startswith("SKIP"):
                 ck.violation("case not understood by harness/driver: %s / %s" % (a[:80], b[:80]), {"case": c, "correspondence": "case format"}, no_input=True)
                 break
@@ -221,8 +227,8 @@ else:
                         ck.violation("real trace violates the property (direct checker) and is rejected by the model: %s" % b[:160],
                                      {"case": c, "impl": a[:3000], "model": b})
                     else:
-                        ck.violation("trace correspondence broken: the real event trace is not accepted by the Coq model (%s)" % b[:160],
-                                     {"case": c, "correspondence": "lstep/bstep/sstep vs real trace", "impl": a[:3000], "model": b}, no_input=True)
+                        corr_break("trace correspondence broken: the real event trace is not accepted by the Coq model (%s)" % b[:160],
+                                     {"case": c, "correspondence": "lstep/bstep/sstep vs real trace", "impl": a[:3000], "model": b})
                     if ck.violations >= 3: break
                     continue
                 if fb.get("check") != "1":
@@ -233,8 +239,8 @@ else:
                     continue
                 traces_ok += 1
                 if not b.startswith("OK") or fa.get("final") != fb.get("final") or fb.get("alldone") != "1":
-                    ck.violation("trace correspondence broken: final state differs (impl %s, model %s)" % (a[:60], b[:100]),
-                                 {"case": c, "correspondence": "final state", "impl": a[:3000], "model": b}, no_input=True)
+                    corr_break("trace correspondence broken: final state differs (impl %s, model %s)" % (a[:60], b[:100]),
+                                 {"case": c, "correspondence": "final state", "impl": a[:3000], "model": b})
                     if ck.violations >= 3: break
                 continue
             # ---- a rest state of the real code
@@ -274,8 +280,8 @@ else:
                         ck.violation("real trace violates the property (direct checker) and is rejected by the model: %s" % b[:160],
                                      {"case": c, "impl": a[:3000], "model": b})
                     else:
-                        ck.violation("trace correspondence broken: the real event trace is not accepted by the Coq model (%s)" % b[:160],
-                                     {"case": c, "correspondence": "lstep/bstep/sstep vs real trace", "impl": a[:3000], "model": b}, no_input=True)
+                        corr_break("trace correspondence broken: the real event trace is not accepted by the Coq model (%s)" % b[:160],
+                                     {"case": c, "correspondence": "lstep/bstep/sstep vs real trace", "impl": a[:3000], "model": b})
                     if ck.violations >= 3: break
                     continue
                 if fb.get("check") != "1":
@@ -287,8 +293,8 @@ else:
                 okm = b.startswith("DEADLOCK") and fb.get("quiescent") == "1" and fb.get("final") == str(val) and \
                     fb.get("blocked", "") == ",".join(blocked) and fb.get("stranded", "") == ""
                 if not okm:
-                    ck.violation("trace correspondence broken at a rest state: impl value=%s blocked=%s, model %s" % (val, blocked, b[:120]),
-                                 {"case": replay_case, "correspondence": "rest state", "impl": a[:3000], "model": b}, no_input=True)
+                    corr_break("trace correspondence broken at a rest state: impl value=%s blocked=%s, model %s" % (val, blocked, b[:120]),
+                                 {"case": replay_case, "correspondence": "rest state", "impl": a[:3000], "model": b})
                     if ck.violations >= 3: break
             else:
                 gens = [int(x) for x in blocks[0]]
@@ -315,8 +321,8 @@ else:
                         ck.violation("real trace violates the property (direct checker) and is rejected by the model: %s" % b[:160],
                                      {"case": c, "impl": a[:3000], "model": b})
                     else:
-                        ck.violation("trace correspondence broken: the real event trace is not accepted by the Coq model (%s)" % b[:160],
-                                     {"case": c, "correspondence": "lstep/bstep/sstep vs real trace", "impl": a[:3000], "model": b}, no_input=True)
+                        corr_break("trace correspondence broken: the real event trace is not accepted by the Coq model (%s)" % b[:160],
+                                     {"case": c, "correspondence": "lstep/bstep/sstep vs real trace", "impl": a[:3000], "model": b})
                     if ck.violations >= 3: break
                     continue
                 if fb.get("check") != "1":
@@ -327,17 +333,24 @@ else:
                     continue
                 okm = b.startswith("DEADLOCK") and fb.get("quiescent") == "1" and fb.get("blocked", "") == ",".join(blocked)
                 if not okm:
-                    ck.violation("trace correspondence broken at a barrier rest state: impl blocked=%s, model %s" % (blocked, b[:120]),
-                                 {"case": replay_case, "correspondence": "rest state", "impl": a[:3000], "model": b}, no_input=True)
+                    corr_break("trace correspondence broken at a barrier rest state: impl blocked=%s, model %s" % (blocked, b[:120]),
+                                 {"case": replay_case, "correspondence": "rest state", "impl": a[:3000], "model": b})
                     if ck.violations >= 3: break
         pick = [0, len(corpus), len(corpus) + 1, len(cases) - 2, len(cases) - 1]
         samples = [{"case": cases[i], "impl": impl[i][:400], "model": model[i] if i < len(model) else None} for i in sorted(set(pick)) if 0 <= i < len(impl)]
 
+# impl != model on some cases: if the search above produced a property-violating input, that is the report;
+# otherwise name the correspondence and the first disagreeing cases (decision rule 3)
+if corr_breaks and not found:
+    for what, replay in corr_breaks[:2]:
+        ck.violation(what, replay, no_input=True)
+    found = True
 if pr is not None and not pr["ok"]:
     ck.proof_broken(found)
 
 ck.finish({
-    "evaluations": len(cases),
+    "correspondence_disagreements": len(corr_breaks),
+    "evaluations": len(cases) - skipped,
     "distinct_nontrivial": len(distinct),
     "traces_validated_against_impl": traces_ok + rest_states,
     "rest_states_analysed": rest_states,
